@@ -26,6 +26,36 @@ def report(rep, rule, inst, site, term, want=None):
     return True
 
 
+DIMENSIONLESS_CALLEES = {'check_param_range', 'check_param_options', 'warn'}
+
+
+def ext_units(rep, ctx, inst):
+    """every neurodsp / scipy callee that is handed a dimensional quantity (fs, f_range, a duration) has a unit signature in sa/units.py:EXT, read from its source: the scale
+    behaviour of a callee without one is not known (its verdict may depend on the absolute unit, like the frequency grid of neurodsp's filter checks)"""
+    rep.rule('EXT-UNITS', 'the only neurodsp / scipy functions that receive fs, f_range or a duration are those whose unit signature is in the model table (filter_signal, '
+                          'compute_filter_length, amp_by_time, detect_bursts_dual_threshold): a further callee with dimensional arguments is outside what the scale argument covers')
+    seen = set()
+    for e in ctx.trace:
+        if e['kind'] != 'call':
+            continue
+        dotted = (e.get('dotted') or '')
+        if not (dotted.startswith('neurodsp.') or dotted.startswith('scipy.')) or e['name'] in U.EXT or e['name'] in DIMENSIONLESS_CALLEES:
+            continue
+        dims = []
+        for a in list(e['args']) + [v for _, v in e['kwargs']]:
+            u, _p = U.unit_of(a)
+            if u in (U.FS, U.HZ, U.SEC) or (isinstance(u, tuple) and u and u[0] == 'seq'):
+                dims.append(T.brief(a, 40))
+            elif any(x in (('param', 'fs'), ('param', 'f_range')) for x in T.walk(a)):
+                dims.append(T.brief(a, 40))
+        if dims and (e['name'], e['where']) not in seen:
+            seen.add((e['name'], e['where']))
+            rep.violation('EXT-UNITS', f'{inst}:{e["name"]}', e['where'] or '-', expected='dimensional arguments only to callees with a unit signature in the model table',
+                          found=f'{dotted}({", ".join(dims[:3])}): no unit signature; its result may depend on the unit in which fs / f_range are written')
+    if not seen:
+        rep.ok('EXT-UNITS', inst, '-', found='no unlisted neurodsp / scipy callee receives a dimensional quantity')
+
+
 def check(rep, model, tier):
     rep.rule('UNITS-OUT', 'inferred units of the output columns: samples for period / time_* / sample_*; signal amplitude V for volt_* and band_amp; dimensionless for the symmetry, '
                           'consistency, fraction, monotonicity columns and the labels -- a stray or missing fs shows up as a unit mismatch')
@@ -85,6 +115,7 @@ def check(rep, model, tier):
             flt = [e for e in ctx.trace if e['kind'] == 'call' and e['name'] in ('filter_signal', 'compute_filter_length')]
             for e in flt:
                 report(rep, 'UNIT-CONSISTENT', f'find_extrema:pad={pad[1]}:{fkn}:{e["name"]}', e['where'], T.call(e['name'], e['args'], e['kwargs']), None)
+            ext_units(rep, ctx, f'find_extrema:pad={pad[1]}:{fkn}')
             n += 1
     g = model.find('_find_flank_midpoints')
     for fl in ('rise', 'decay'):
@@ -101,6 +132,7 @@ def check(rep, model, tier):
     r, ctx = E.run(model, g.qual, {g.params[0]: E.abstract_table('S', list(E.SAMPLE_COLS['peak'].values())), 'sig': ('param', 'sig'), 'fs': ('param', 'fs'),
                                    'f_range': ('param', 'f_range'), 'n_cycles': ('param', 'n_cycles')})
     report(rep, 'UNIT-CONSISTENT', 'compute_band_amp', f'{g.path}:{g.node.lineno} compute_band_amp', r, U.V)
+    ext_units(rep, ctx, 'compute_band_amp')
     # embedded positive examples: the inference must flag these on every run
     sig, fs = ('param', 'sig'), ('param', 'fs')
     col = ('col', 'S', 'period')
